@@ -272,3 +272,38 @@ func VH_C02_S2_hint_splits() {
 	s.checkAll("after-restart")
 	s.close()
 }
+
+// C03-S3 skeleton "resurrection onto a short earlier file": a restart leaves file 0 short, so a
+// later pass over [1,..] appends its survivors - among them the tombstone of a key whose live
+// record sits in file 0 - to file 0 itself (destination 0, range start > 0). The tombstone must
+// survive, with the tree dump present or rebuilt, and the key must stay deleted after any
+// further restart.
+func VH_C03_S3_gc_resurrection_short() {
+	s := newScen(768, false, "ka", "kb", "kc")
+	s.distinct = true
+	s.setS("ka") // file0 (short)
+	if vrt.Bool("two-in-file0") {
+		s.setS("kb")
+	}
+	s.reopen(0) // clean restart: the next write opens file 1
+	s.del("ka") // file1: tombstone of a key whose record is in file 0
+	s.setS("kb")
+	s.setS("kc") // file1 full
+	s.setS("kc") // file2 = head (supersedes kc@1)
+	s.flush()
+	s.checkAll("before-gc")
+	if vrt.Bool("restart-without-tree") {
+		s.reopen(1 | 2*vrt.Choice("also-hints", 2)) // head moves on to file 3, file 2 stays short
+	}
+	end := 1
+	if s.bkt().datas.newHead > 2 && vrt.Bool("range-includes-file2") {
+		end = 2
+	}
+	s.gc(1, end, vrt.Bool("merge"))
+	s.checkAll("after-gc")
+	s.reopen(vrt.Choice("rm", 8))
+	s.checkAll("after-gc-restart")
+	s.reopen(7)
+	s.checkAll("after-gc-second-restart")
+	s.close()
+}
